@@ -133,6 +133,13 @@ CHECKS = {
         note="FixAtoms and FixCom are not combined (ASE itself moves the fixed atom then). Cell moves are not judged.",
         technique="stateless exhaustive exploration of the implementation with constraint invariants evaluated after every trial",
     ),
+    "C20": dict(
+        category="model_checking",
+        text="Bare user classes (inheriting from nothing in the package) implementing exactly the documented Move/Criteria protocol are added with explicit criteria to every Monte Carlo driver (MonteCarlo, Canonical, HamiltonianCanonical, Isobaric, Isotension, GrandCanonical), alone and next to shipped displacement/cell/exchange moves; every attribute the package reads or writes on them is logged by __getattribute__/__setattr__. All histories to depth 2-3 (bare move truthy/falsy, every criteria verdict) are enumerated: access log within the protocol surface; falsy -> recorded as not attempted and the criteria not consulted, truthy -> consulted exactly once; the simulation's to_dict carries the user dictionaries and from_dict rebuilds the registered classes; exactly one on_atoms_changed with the right indices per accepted change of atom count and one on_cell_changed with the new cell per accepted cell change, none otherwise.",
+        design_ref="4-C20",
+        note="Accesses are attributed to the package by the calling frame's file. Implicit special-method calls are protocol calls by construction.",
+        technique="stateless exhaustive exploration of the implementation with an attribute-access monitor and a notification reference model",
+    ),
 }
 
 NA_REASON = "check not built yet in this session (design in DESIGN.md); no claim is made"
